@@ -186,7 +186,7 @@ where
     let cs = all_cases::<B>(run.tier);
     run.family(
         &format!("ks_exact_scratch/{}", B::NAME),
-        "outer = (operation (38: glwe/gglwe/ggsw/lwe key switch incl. assign, 8 automorphism variants, ggsw / automorphism-key automorphism, trace, glwe_pack, packer add+flush, glwe_from_lwe, lwe_from_glwe index 0 and > 0, glwe/gglwe/ggsw external products, cmux x3, cswap, ggsw_from_gglwe, ggsw_expand_row), shape grid: N 8 (16), ranks 1..3 (in != out where admitted), dsize 1..4, input 2 / 5 limbs, result equal / shorter, radices (12,12,12) (10,12,8) (12,17,12) (17,10,12) - input finer and coarser than the key, LWE dimensions N and 5); inner = 3 pre-fills (zeros, 0x11, NaN/huge) of an exact-size window between canaries for EVERY scratch-taking call of the pipeline (key generation, key preparation, encryption, the operation, decryption); evaluations = exact-window library calls",
+        "outer = (operation (38: glwe/gglwe/ggsw/lwe key switch incl. assign, 8 automorphism variants, ggsw / automorphism-key automorphism, trace, glwe_pack, packer add+flush, glwe_from_lwe, lwe_from_glwe index 0 and > 0, glwe/gglwe/ggsw external products, cmux x3, cswap, ggsw_from_gglwe, ggsw_expand_row), shape grid: N 8 (16), ranks 1..3 (in != out where admitted), dsize 1..4, input 2 / 5 limbs, result equal / shorter, radices (12,12,12) (10,12,8) (12,17,12) (17,10,12) (5,15,10) - input finer and coarser than the key, one key limb spanning three input limbs, LWE dimensions N and 5); inner = 3 pre-fills (zeros, 0x11, NaN/huge) of an exact-size window between canaries for EVERY scratch-taking call of the pipeline (key generation, key preparation, encryption, the operation, decryption); evaluations = exact-window library calls",
         cs,
         |c, rec| exec::<B>(c, seed, rec),
     );
